@@ -16,9 +16,10 @@ RULE = ('designs of strata S1, S1x, S2, S3, S4, S5, S6 (quick: fixed core + seed
 ASSUMPTIONS = ['reference model vt/ref.py (documented semantics; readings where under-specified)',
                'random.randrange is RandomGen\'s only source of nondeterminism (one schedule is replayed twice per design and must reproduce)']
 BUDGET_S = {'quick': 90, 'thorough': 600}
-STRATA = ['S1', 'S1x', 'S2', 'S2s', 'S3', 'S4', 'S5', 'S6']
+STRATA = ['S1', 'S1L', 'S1x', 'S2', 'S2s', 'S3', 'S4', 'S5', 'S6']
 QUICK_CAPS = dsw.QUICK_CAPS_BIG
 MODE = 'sound'
+REF_LIMIT = {'quick': 1200, 'thorough': 20000}     # the reference enumeration is cheap; the sampler side is bounded by CAP leaves
 DEV = {'quick': 1, 'thorough': 2}
 
 
@@ -28,7 +29,7 @@ def items(tier, seed):
 
 def run_item(item, mode=None):
     mode = mode or MODE
-    c, sk = dsw.setup(item['spec'], item['tier'], fallback_checker=(mode == 'sound'))
+    c, sk = dsw.setup(item['spec'], item['tier'], ref_limit=REF_LIMIT[item['tier']], fallback_checker=(mode == 'sound'))
     if sk:
         return sk
     sig = dict(c.sig, gen='rnd')
@@ -42,7 +43,8 @@ def run_item(item, mode=None):
             return core.skip('candidate tree larger than CAP')
         # too large for the full tree: every schedule within DEV deviations of the default (all-zero) draw sequence, accepted
         # candidates judged by the reference set or the single-sequence membership oracle
-        info = rnd.explore_candidates(c, item['tier'], bound=DEV[item['tier']])
+        baseline = rnd.find_accepting_schedule(c)
+        info = rnd.explore_candidates(c, item['tier'], bound=DEV[item['tier']], baseline=baseline)
         if info.get('exception') is not None:
             return core.skip('RandomGen raises %s (C08)' % type(info['exception']).__name__)
         ex = info['ex']
